@@ -388,14 +388,22 @@ def r3(cx):
     up = [c for c in h.calls() if c.kind == "virtual" and c.q.endswith("DbCollection::update")]
     fe = [c for c in h.calls() if c.q.endswith("Event::from_act")]
     ok = len(cr) == 1 and len(up) == 1 and len(fe) == 2
+    walked_via_model = False
     if ok:
         for c in fe:
             a = pa.root(h, c.args[0])
             src = pa.iter_source(h, ("call", a[1], a[2], ())) if a[0] == "call" else None
-            ok = ok and src is not None and src[0][0] == "param" and src[0][2] == "acts" and all(re.search(r"::iter$|::into_iter$", x) for x in src[2])
+            # the list walked is a parameter: the `on` list itself (`acts`), or the model whose `.on` is walked
+            flds_ = [x for x in (src[0][3] if src is not None and src[0][0] == "param" else ()) if x != "*"]
+            direct_ = src is not None and src[0][0] == "param" and not flds_
+            via_model_ = src is not None and src[0][0] == "param" and flds_ == ["on"]
+            ok = ok and (direct_ or via_model_) and all(re.search(r"::iter$|::into_iter$|Deref>::deref$", x) for x in src[2])
+            walked_via_model = via_model_
     cx.ob("C20.R3", "events:one-per-on", ok, "deploy_event walks every `on` act (plain loop) and creates or updates one event row built from it", h.loc())
     arg = pa.root(f, de[0].args[1]) if de else None
-    cx.ob("C20.R3", "events:from-on", arg is not None and arg[0] == "param" and arg[1] == 2 and arg[3] == ("on",), "the acts registered are the model's `on` list", de[0].loc if de else f.loc())
+    flds_ = [x for x in (arg[3] if arg is not None and arg[0] == "param" else ()) if x != "*"]
+    from_on = arg is not None and arg[0] == "param" and arg[1] == 2 and (flds_ == ["on"] or (not flds_ and ok and walked_via_model))
+    cx.ob("C20.R3", "events:from-on", from_on, "the acts registered are the model's `on` list", de[0].loc if de else f.loc())
     cx.floor("C20.R3", 9)
 
 
